@@ -313,6 +313,8 @@ def locate_source(info):
             for i, ln in enumerate(txt.splitlines(), 1):
                 if any(pt.search(ln) for pt in pats):
                     score = (2 if want_file == f else 0) + sum(1 for k in key_ids if k in txt)
+                    if key_ids and re.search(r"(impl(<[^>]*>)?|trait|for)\s+" + re.escape(key_ids[-1]) + r"\b[^;]*\{", txt):
+                        score += 3
                     if best is None or score > best[0]:
                         best = (score, f"{os.path.relpath(p, REPO)}:{i} (fn {fn})")
                     break
